@@ -462,6 +462,44 @@ def r165(P, rep):
             rep.undecided('R16.5', 'stdatomic.h:%s' % mname, 'macro outside the evaluated C subset: %s' % e, where=where)
 
 
+
+def r165_hygiene(P, rep):
+    """the statement-expression macros of include/stdatomic.h declare temporaries in the scope in which the caller's operand expressions are
+    then evaluated: a temporary whose name an operand may legitimately use (any identifier that is not reserved, C11 7.1.3) captures it -
+    `int old = 5; atomic_fetch_add(&z, old)` would add the macro's own temporary. Decided per generic function over the parsed expansion:
+    every identifier the expansion declares is reserved (`__x` or `_X`), unless every macro argument is evaluated before the first
+    declaration."""
+    from ..lib_minic import parse_macros, expand, tokenize, Parser, NotInSubset
+    where = 'include/stdatomic.h'
+    try:
+        macros = parse_macros(open(P.header('include/stdatomic.h')).read())
+    except NotInSubset:
+        return                     # R16.5 reports it
+    names = ['atomic_fetch_%s%s' % (o, x) for o in ('add', 'sub', 'or', 'xor', 'and') for x in ('', '_explicit')]
+    names += ['atomic_exchange', 'atomic_exchange_explicit', 'atomic_compare_exchange_strong', 'atomic_compare_exchange_weak', 'atomic_flag_test_and_set']
+
+    def decls(n, out):
+        if isinstance(n, (tuple, list)):
+            if n and n[0] == 'decl' and isinstance(n[1], str):
+                out.append(n[1])
+            for x in n:
+                decls(x, out)
+        return out
+    for mname in names:
+        if mname not in macros or macros[mname][0] is None:
+            continue
+        params = macros[mname][0]
+        key = 'stdatomic.h:%s:temporaries-have-reserved-names' % mname
+        try:
+            ps = Parser(expand(tokenize('%s(%s)' % (mname, ', '.join('ARG%d' % i for i in range(len(params))))), macros) + [('p', ';')], typenames=())
+            e = ps.expr()
+        except NotInSubset as x:
+            rep.undecided('R16.5', key, 'macro outside the parsed C subset: %s' % x, where=where); continue
+        bad = sorted({d for d in decls(e, []) if not re.match(r'__|_[A-Z]', d)})
+        rep.ob('R16.5', key + (':' + bad[0] if bad else ''), not bad,
+               '%s declares the temporary `%s` in the scope where the caller\'s operands are evaluated: an operand that mentions a variable of that name (an ordinary identifier) reads the macro\'s temporary instead' % (mname, ', '.join(bad)), where=where)
+
+
 def r165_typed(P, rep):
     """include/stdatomic.h on objects of every integer width and signedness: the expanded macros are evaluated with C's types (sa/lib_c16.py):
     each temporary has the width of its declared type (`typeof(expr)` follows promotion and the usual arithmetic conversions), and the
@@ -470,7 +508,7 @@ def r165_typed(P, rep):
     a conversion of the new value through a narrower type loses bits. Required under every interference schedule, as in R16.5: one indivisible
     update old -> old op val, and the value yielded is the value the object held immediately before it."""
     from ..lib_minic import parse_macros, expand, tokenize, Parser, NotInSubset
-    from ..lib_c16 import TypedEval, TCell, TShared, Diverges, CTYPES, PYOP, wrap, tname
+    from ..lib_c16 import TypedEval, TCell, TShared, Diverges, CTYPES, PYOP, wrap, tname, atomic
     rep.rule('R16.8', 'include/stdatomic.h, evaluated with C types on atomic objects of every integer width and signedness: the temporaries of the generic read-modify-write macros have the width of the atomic object (the compare-exchange builtin reads and refreshes exactly sizeof(object) bytes of the expected-value object), no conversion on the way loses or invents bits, and atomic_fetch_* / atomic_exchange yield the value the object held immediately before their own update under any interference, including interference that changes the sign of the object', floor=100)
     where = 'include/stdatomic.h'
     try:
@@ -499,9 +537,16 @@ def r165_typed(P, rep):
         out += [{1: a, 2: b} for a in cs[:5] for b in cs[:5] if a != b]
         return out
 
-    def run(e, t, init, vt, val, inj, extra=None):
+    # The generic functions are applied to objects designated through pointers whose pointee type carries _Atomic AND through pointers
+    # to the unqualified type (gcc accepts both, test/atomic.c does it, and a `long` member of a shared struct updated with
+    # atomic_fetch_add is everyday code): the compiler makes `*(obj) op= v` indivisible only in the first case, so a macro may rely on
+    # op= only if it makes the lvalue atomic-qualified itself. Every macro is evaluated with both pointee types.
+    POINTEES = (('', True), ('/through-unqualified-pointer', False))
+    QNOTE = {True: '', False: ' [the object is designated through a pointer to the unqualified type: op=, ++ and -- on *(obj) are a plain load, the operation and a plain store there - only the builtins are indivisible]'}
+
+    def run(e, t, init, vt, val, inj, extra=None, qualified=True):
         obj = TShared(t, init, inj)
-        env = {'P': TCell(('ptr', t), obj, 'P'), 'V': TCell(vt, val, 'V'), 'ORDER': TCell(CTYPES['int'], 5, 'ORDER')}
+        env = {'P': TCell(('ptr', atomic(t) if qualified else t), obj, 'P'), 'V': TCell(vt, val, 'V'), 'ORDER': TCell(CTYPES['int'], 5, 'ORDER')}
         env.update(extra or {})
         ev = TypedEval()
         return ev.ev(e, env), obj, ev.ty(e, ev.tenv(env))
@@ -517,8 +562,8 @@ def r165_typed(P, rep):
                 e = parse('%s(P, V%s)' % (mname, ', ORDER' if nargs == 3 else ''))
             except NotInSubset as x:
                 rep.undecided('R16.8', 'stdatomic.h:%s' % mname, 'macro outside the evaluated C subset: %s' % x, where=where); continue
-            for cat, t in CTYPES.items():
-                key = 'stdatomic.h:%s:object/%s' % (mname, cat)
+            for cat, t, (qsuffix, qualified) in [(c_, t_, q_) for c_, t_ in CTYPES.items() for q_ in POINTEES]:
+                key = 'stdatomic.h:%s:object/%s%s' % (mname, cat, qsuffix)
                 bad = None
                 try:
                     cs = corners(t)
@@ -529,7 +574,7 @@ def r165_typed(P, rep):
                                     break
                                 sched = 'a %s object holding %d, operand (%s)%d%s' % (tname(t), wrap(t, init), tname(vt), val, '' if not inj else '; other threads store %r right before this operation\'s accesses number %r' % ([wrap(t, x) for x in inj.values()], list(inj)))
                                 try:
-                                    res, obj, rt = run(e, t, init, vt, val, inj)
+                                    res, obj, rt = run(e, t, init, vt, val, inj, qualified=qualified)
                                 except Diverges:
                                     bad = ('retry-loop-never-terminates', 'repeats a state of its retry loop with no interference left: it never terminates (%s)' % sched); continue
                                 ups = obj.updates
@@ -540,7 +585,7 @@ def r165_typed(P, rep):
                                 old, new, how = ups[0]
                                 want = wrap(t, PYOP[op](old, val))
                                 if how == 'plain-store':
-                                    bad = ('not-indivisible', 'updates the object with a plain store computed from an earlier read (%s)' % sched); continue
+                                    bad = ('not-indivisible', 'updates the object with a plain store computed from an earlier read: an update another thread makes in between is lost (%s)%s' % (sched, QNOTE[qualified])); continue
                                 if new != want:
                                     bad = ('wrong-update', 'the object held %d right before the update and becomes %d, expected %d: a conversion on the way to the compare-exchange loses or invents bits (%s)' % (old, new, want, sched)); continue
                                 if res != old:
@@ -557,19 +602,19 @@ def r165_typed(P, rep):
             e = parse('%s(P, V%s)' % (mname, ', ORDER' if nargs == 3 else ''))
         except NotInSubset as x:
             rep.undecided('R16.8', 'stdatomic.h:%s' % mname, 'macro outside the evaluated C subset: %s' % x, where=where); continue
-        for cat, t in CTYPES.items():
-            key = 'stdatomic.h:%s:object/%s' % (mname, cat)
+        for cat, t, (qsuffix, qualified) in [(c_, t_, q_) for c_, t_ in CTYPES.items() for q_ in POINTEES]:
+            key = 'stdatomic.h:%s:object/%s%s' % (mname, cat, qsuffix)
             bad = None
             try:
                 cs = corners(t)
                 for init in (cs[3], cs[2]):
                     for vt, val in ((CTYPES['int'], -2), (CTYPES['int'], 200), (CTYPES['uint'], 0xfffffff5)):
                         for inj in ({}, {0: cs[4]}, {0: cs[2]}, {0: 0}, {1: cs[4]}):
-                            res, obj, rt = run(e, t, init, vt, val, inj)
+                            res, obj, rt = run(e, t, init, vt, val, inj, qualified=qualified)
                             sched = 'a %s object holding %d, operand (%s)%d, other threads store %r' % (tname(t), wrap(t, init), tname(vt), val, inj)
                             ups = obj.updates
                             if len(ups) != 1 or ups[0][2] != 'xchg':
-                                bad = bad or ('updates', 'does not perform exactly one exchange: %r (%s)' % (ups, sched))
+                                bad = bad or ('updates', 'does not perform exactly one exchange: %r (%s)%s' % (ups, sched, QNOTE[qualified]))
                             elif ups[0][1] != wrap(t, val):
                                 bad = bad or ('wrong-update', 'stores %d, expected the operand converted to the object type, %d (%s)' % (ups[0][1], wrap(t, val), sched))
                             elif res != ups[0][0]:
@@ -584,15 +629,15 @@ def r165_typed(P, rep):
             e = parse('%s(P, E, N)' % mname)
         except NotInSubset as x:
             rep.undecided('R16.8', 'stdatomic.h:%s' % mname, 'macro outside the evaluated C subset: %s' % x, where=where); continue
-        for cat, t in CTYPES.items():
-            key = 'stdatomic.h:%s:object/%s' % (mname, cat)
+        for cat, t, (qsuffix, qualified) in [(c_, t_, q_) for c_, t_ in CTYPES.items() for q_ in POINTEES]:
+            key = 'stdatomic.h:%s:object/%s%s' % (mname, cat, qsuffix)
             bad = None
             try:
                 cs = corners(t)
                 for init, expv in ((cs[3], cs[3]), (cs[3], cs[4]), (cs[2], cs[2]), (cs[2], 0), (5, 5)):
                     for inj in ({}, {0: cs[4]}, {0: cs[3]}, {0: cs[2]}, {0: 0}, {1: cs[4]}, {0: cs[2], 1: cs[3]}):
                         exp = TCell(t, expv, 'expected')
-                        res, obj, rt = run(e, t, init, CTYPES['int'], 0, inj, {'E': TCell(('ptr', t), exp, 'E'), 'N': TCell(CTYPES['int'], 42, 'N')})
+                        res, obj, rt = run(e, t, init, CTYPES['int'], 0, inj, {'E': TCell(('ptr', t), exp, 'E'), 'N': TCell(CTYPES['int'], 42, 'N')}, qualified=qualified)
                         sched = 'a %s object holding %d, expected %d, other threads store %r' % (tname(t), wrap(t, init), wrap(t, expv), inj)
                         if obj.fault:
                             bad = bad or (obj.fault[0], '%s (%s)' % (obj.fault[1], sched))
@@ -606,6 +651,234 @@ def r165_typed(P, rep):
             except (NotInSubset, Diverges) as x:
                 rep.undecided('R16.8', key, 'macro outside the evaluated C subset: %s' % x, where=where); continue
             rep.ob('R16.8', key if not bad else key + ':' + bad[0], bad is None, '%s %s' % (mname, bad[1] if bad else ''), where=where)
+
+
+
+def r169(P, rep):
+    """include/stdatomic.h: the atomic_* type names of C11 7.17.6. `_Atomic` on the type is the ONLY thing that routes op=, ++ and -- on an
+    object to the compare-exchange loop (R16.1 decides the rewrite for lvalues whose type carries is_atomic, R16.6 that both spellings of
+    the qualifier set it): a typedef without it declares objects whose compound assignments are plain load/modify/store. The base type must
+    be the direct type C11 pairs the name with (size and signedness on x86-64 System V / glibc), else the indivisible instruction works
+    on a different width than the program's other views of the object (uintptr_t, size_t ... values are truncated)."""
+    from ..lib_minic import NotInSubset
+    from ..lib_c16 import C11_ATOMIC_TYPEDEFS, header_decls, typedef_type
+    rep.rule('R16.9', 'include/stdatomic.h defines every atomic_* type name of C11 7.17.6 as the _Atomic-qualified version of the direct type it is paired with (size, signedness; _Bool for atomic_bool), and no macro of the header redefines _Atomic, a type keyword or one of these names: the qualifier is what makes op=, ++ and -- on such objects indivisible', floor=37)
+    where = 'include/stdatomic.h'
+    try:
+        decls, directives = header_decls(open(P.header('include/stdatomic.h')).read())
+    except NotInSubset as e:
+        rep.undecided('R16.9', 'stdatomic.h:typedefs', 'header not tokenizable: %s' % e, where=where); return
+    cond = [(i, d) for i, d in enumerate(directives) if d[0] in ('if', 'ifdef', 'ifndef', 'elif', 'else', 'endif', 'include', 'include_next')]
+    guard = (len(directives) >= 3 and directives[0][0] == 'ifndef' and directives[1][0] == 'define' and directives[1][1].split('(')[0].strip() == directives[0][1]
+             and directives[-1][0] == 'endif')
+    if not guard or [i for i, d in cond] != [0, len(directives) - 1]:
+        rep.undecided('R16.9', 'stdatomic.h:typedefs', 'the header has conditional sections or includes besides its include guard (%s): which typedefs are active is not evaluated'
+                      % ', '.join('#%s %s' % d for i, d in cond[:4]), where=where); return
+    KEYWORDS = ('_Atomic', 'typedef', 'char', 'short', 'int', 'long', 'signed', 'unsigned', '_Bool', 'const', 'volatile')
+    shadow = sorted({d[1].split('(')[0].split()[0] for d in directives if d[0] in ('define',) and d[1] and (d[1].split('(')[0].split() or [''])[0] in KEYWORDS + tuple(C11_ATOMIC_TYPEDEFS) + ('atomic_flag',)})
+    rep.ob('R16.9', 'stdatomic.h:typedefs:no-macro-shadows-a-type-word' + (':' + shadow[0] if shadow else ''), not shadow,
+           'the header #defines %s: the typedefs (or every later use of the name) no longer mean what their text says' % ', '.join(shadow), where=where)
+    known = {}
+    failed = {}
+    defs = {}
+    for d in decls:
+        if d[0] != ('id', 'typedef'):
+            continue
+        name = d[-1][1] if d[-1][0] == 'id' else None
+        if name is None or ('p', ',') in d:
+            for t in d:
+                if t[0] == 'id' and (t[1] in C11_ATOMIC_TYPEDEFS or t[1] == 'atomic_flag'):
+                    failed[t[1]] = 'declarator form not handled'
+            continue
+        try:
+            known[name] = typedef_type(d[1:-1], known)
+            defs.setdefault(name, []).append(known[name])
+        except NotInSubset as e:
+            failed[name] = str(e)
+            known.pop(name, None)
+    for name, want in sorted(C11_ATOMIC_TYPEDEFS.items()):
+        key = 'stdatomic.h:typedef/%s' % name
+        if name in failed:
+            rep.undecided('R16.9', key, 'typedef of %s not interpretable: %s' % (name, failed[name]), where=where); continue
+        if name not in defs:
+            rep.ob('R16.9', key + ':not-defined', False, '%s (C11 7.17.6) is not defined' % name, where=where); continue
+        msg = tag = None
+        for at, base in defs[name]:
+            if not at:
+                tag, msg = 'not-atomic', ('%s is defined without the _Atomic qualifier: `A op= B`, ++ and -- on an object of this type are compiled as a plain load, the operation and a plain store, '
+                                          'so concurrent updates are lost (the generic functions still work, they use the builtins)' % name)
+            elif base != want:
+                tag, msg = 'wrong-base-type', '%s is the atomic version of a %s of %d byte(s) (%s); C11 7.17.6 pairs it with a %s of %d byte(s) (%s)' % (
+                    name, base[0], base[1], 'unsigned' if base[2] else 'signed', want[0], want[1], 'unsigned' if want[2] else 'signed')
+            if msg:
+                break
+        rep.ob('R16.9', key + (':' + tag if tag else ''), msg is None, msg or '', where=where)
+    if 'atomic_flag' in failed:
+        rep.undecided('R16.9', 'stdatomic.h:typedef/atomic_flag', 'typedef of atomic_flag not interpretable: %s' % failed['atomic_flag'], where=where)
+    else:
+        ok = 'atomic_flag' in defs and all(b[0] in ('int', 'bool') for a, b in defs['atomic_flag'])
+        rep.ob('R16.9', 'stdatomic.h:typedef/atomic_flag' + ('' if ok else ':not-defined'), ok, 'atomic_flag (C11 7.17.8) is not defined as an integer/_Bool type the exchange builtin can operate on', where=where)
+
+
+
+AGG_KINDS = (('struct', 'TY_STRUCT'), ('union', 'TY_UNION'))
+
+
+def agg_admitted(T, kind, tyk, size):
+    """does add_type let the builtin `kind` through on an _Atomic struct/union object of `size` bytes (True / False), None = not interpretable"""
+    E = T.E
+    fields = ('cas_addr', 'cas_old', 'cas_new') if kind == 'ND_CAS' else ('lhs', 'rhs')
+    it = T.interp(opaque=['error_tok'])
+
+    def mk(ctx):
+        it.ctx = ctx
+        st = Obj('Type', lazy=True, label='agg')
+        st.fields.update({'kind': E[tyk], 'size': size, 'align': 1, 'is_unsigned': 0, 'base': 0, 'is_atomic': 1})
+        n = Obj('Node', lazy=False, label='node'); n.fields['kind'] = E[kind]; n.fields['tok'] = Obj('Token', lazy=True, label='tok')
+        for f in fields:
+            c = Obj('Node', lazy=False, label=f); c.fields['kind'] = E['ND_VAR']; c.fields['tok'] = n.fields['tok']
+            c.fields['ty'] = st if f in ('cas_new', 'rhs') else it.call_fn(*it.find_def('pointer_to'), [st])
+            n.fields[f] = c
+        return [n]
+    try:
+        res = it.explore('add_type', mk)
+    except Exception:
+        return None
+    if not res:
+        return None
+    return any(o[0] == 'ret' for ctx, o in res)
+
+
+def r1610(P, cg, rep):
+    """struct / union objects. A struct or union expression is evaluated to the ADDRESS of the object (load() does nothing for them), while
+    cmpxchg / xchg need the bytes of the object in a general register. For every aggregate size: either add_type rejects the builtin (no code
+    is generated), or the emitted code satisfies the clauses of R16.3 / R16.4 with the operands read from memory: the comparand is the
+    sizeof(object) bytes at *old, the value offered is the sizeof(object) bytes of the third operand, the failure path writes the observed
+    bytes to *old; an exchange stores the bytes of its operand and yields an object that holds the bytes it fetched. Sizes that no single
+    cmpxchg covers must be rejected."""
+    rep.rule('R16.10', 'compare-and-swap / exchange on a struct or union object: rejected at compile time, or the instruction operates on the bytes of the objects (comparand = the bytes at *old, new value = the bytes of the operand, observed bytes written back on failure) - never on the addresses the aggregate operands are evaluated to; aggregate sizes other than 1, 2, 4, 8 bytes are rejected', floor=6)
+    T = Types(P)
+    where = '%s:%d' % (U, cg.cu.fn('gen_expr').line)
+    twhere = 'type.c:%d' % T.tu.fn('add_type').line
+    for kind in ('ND_CAS', 'ND_EXCH'):
+        for aname, tyk in AGG_KINDS:
+            for size in (3, 16):
+                adm = agg_admitted(T, kind, tyk, size)
+                key = 'type.c:add_type:%s/%s-of-unsupported-size' % (kind, aname)
+                if adm is None:
+                    rep.undecided('R16.10', key, 'add_type not interpretable on a %d-byte %s' % (size, aname), where=twhere)
+                else:
+                    rep.ob('R16.10', key + (':admitted' if adm else ''), not adm, '%s on a %d-byte %s is admitted: no lock cmpxchg / xchg covers exactly %d bytes, the instruction would operate on a different width than the object' % (kind, size, aname, size), where=twhere)
+        bad = None
+        undec = None
+        nchecked = 0
+        nrejected = 0
+        for aname, tyk in AGG_KINDS:
+            for size in (1, 2, 4, 8):
+                adm = agg_admitted(T, kind, tyk, size)
+                if adm is None:
+                    undec = undec or 'add_type not interpretable on a %d-byte %s' % (size, aname); continue
+                if not adm:
+                    nrejected += 1; continue
+                w = size * 8
+                what = 'a %d-byte %s' % (size, aname)
+
+                def mk(ctx, aname=aname, size=size, kind=kind):
+                    n = cg.node('node', kind)
+                    b = cg.tcell('obj', only=(aname,), agg_sizes=(size,))
+                    if kind == 'ND_CAS':
+                        n.fields['ty'] = cg.tcell('nty', only=('bool',))
+                        n.fields['cas_addr'] = cg.node('cas_addr', ty=cg.ptr_to(b, 'pa'))
+                        n.fields['cas_old'] = cg.node('cas_old', ty=cg.ptr_to(b, 'po'))
+                        n.fields['cas_new'] = cg.node('cas_new', ty=b)
+                    else:
+                        n.fields['ty'] = b
+                        n.fields['lhs'] = cg.node('lhs', ty=cg.ptr_to(b, 'pa'))
+                        n.fields['rhs'] = cg.node('rhs', ty=b)
+                    return n
+                pack = run_paths(cg, 'gen_expr', mk)
+                nstates = 0
+                for ctx, tr, finals, cats, it in pack:
+                    if isinstance(finals, Exception):
+                        undec = undec or 'emitted code for %s not interpretable: %s' % (what, finals); continue
+                    for st in finals:
+                        nstates += 1
+                        nchecked += 1
+                        try:
+                            r = agg_cas_state(st, w) if kind == 'ND_CAS' else agg_exch_state(st, w)
+                        except Unknown as e:
+                            undec = undec or 'emitted code for %s not interpretable: %s' % (what, e); continue
+                        if r is not None and bad is None:
+                            bad = (r[0], '%s on %s: %s' % (kind, what, r[1]), tr.text())
+                if nstates == 0:
+                    undec = undec or 'no returning path of gen_expr for %s on %s although add_type admits it' % (kind, what)
+        key = '%s:gen_expr:%s/aggregate' % (U, kind)
+        if bad:
+            rep.ob('R16.10', key + ':' + bad[0], False, bad[1], where=where, facts={'trace': bad[2]})
+        elif undec:
+            rep.undecided('R16.10', key, undec, where=where)
+        else:
+            rep.ob('R16.10', key, True, '', where=where, facts={'states checked': nchecked, 'size/kind combinations rejected by add_type': nrejected})
+
+
+def agg_cas_state(s, w):
+    """None if the final state of a compare-and-swap on an aggregate satisfies R16.3 with memory operands, else (tag, message)"""
+    A = ('addr', ('r', 'cas_addr', 64), 0)
+    O = ('addr', ('r', 'cas_old', 64), 0)
+    N = ('addr', ('r', 'cas_new', 64), 0)
+    cx = [e for e in s.events if e[0] == 'cmpxchg']
+    if len(cx) != 1:
+        return 'cmpxchg-count', '%d cmpxchg instructions on a path, exactly one expected' % len(cx)
+    _, locked, cw, addr, expected, new = cx[0]
+    if not locked:
+        return 'no-lock-prefix', 'cmpxchg is emitted without the lock prefix'
+    if cw != w:
+        return 'width', 'cmpxchg operates on %d bits but the object has %d' % (cw, w)
+    if addr != A:
+        return 'wrong-object', 'cmpxchg operates on %r, not on the object the first operand points to' % (addr,)
+    if bitsof(w, expected) != ('mem', w, O):
+        return 'comparand-is-not-the-bytes-at-old', ('the comparand in the accumulator is %r, expected the %d bits stored at *old: the second operand is a pointer to a struct/union and a load of such a type yields the address again, so the ADDRESS of the expected-value object is compared with the content of the atomic object - the exchange never succeeds and a retry loop around it never ends' % (bitsof(w, expected), w))
+    if bitsof(w, new) != ('mem', w, N):
+        return 'new-value-is-not-the-bytes-of-the-operand', 'the value offered to cmpxchg is %r, expected the %d bits of the third operand (it is evaluated to its address %r): an address would be stored into the object' % (bitsof(w, new), w, N)
+    succeeded = None
+    for c, truth in s.cond:
+        if c[0] in ('cas_ok', 'cas_failed'):
+            succeeded = truth if c[0] == 'cas_ok' else (not truth)
+    res = canon(lo(32, s.reg['rax']))
+    if res != canon(ext('zx', 8, 32, ('cas_ok', 1))):
+        return 'result', 'the value of the expression is %r, expected the success flag' % (res,)
+    stores = list(s.stores)
+    if succeeded is None:
+        return 'write-back-unconditional', 'the code does not branch on the outcome of cmpxchg'
+    if succeeded and stores:
+        return 'store-on-success', 'on success %d store(s) are performed: the expected-value object must stay untouched' % len(stores)
+    if not succeeded and not (len(stores) == 1 and stores[0][0] == O and stores[0][1] == w and bitsof(w, resolve_cas(stores[0][2], False)) == ('observed', w, A, 1)):
+        return 'failure-write-back', 'on failure the stores are %r; exactly the observed %d bits must be written to *old' % ([(a, ww) for a, ww, v, k in stores], w)
+    return None
+
+
+def agg_exch_state(s, w):
+    A = ('addr', ('r', 'lhs', 64), 0)
+    N = ('addr', ('r', 'rhs', 64), 0)
+    xs = [e for e in s.events if e[0] == 'xchg']
+    if len(xs) != 1:
+        return 'xchg-count', '%d xchg instructions with a memory operand, one expected' % len(xs)
+    _, addr, xw, new = xs[0]
+    if addr != A:
+        return 'wrong-object', 'xchg operates on %r, not on the object the first operand points to' % (addr,)
+    if xw != w:
+        return 'width', 'xchg moves %d bits, the object has %d' % (xw, w)
+    # the expression has struct/union type: its value is the address of an object holding the fetched bytes
+    res = canon(s.reg['rax'])
+    if bitsof(w, res) == ('mem', w, A):
+        return 'result-is-not-an-object-holding-the-old-bytes', ('the expression has struct/union type, so its consumers take %%rax as the ADDRESS of the value; %%rax holds the fetched bytes themselves (%r): they are dereferenced as an address' % (res,))
+    if bitsof(w, new) != ('mem', w, N):
+        return 'new-value-is-not-the-bytes-of-the-operand', ('xchg stores %r, expected the %d bits of the second operand (a struct/union operand is evaluated to its address %r): the address is stored into the object' % (bitsof(w, new), w, N))
+    held = [st for st in s.stores if st[3] != 'xchg' and st[0] in (res, ('addr', res, 0))]
+    if any(st[1] == w and bitsof(w, st[2]) == ('mem', w, A) for st in held):
+        return None
+    raise Unknown('result of an exchange on an aggregate: %%rax is %r, stores %r - not recognised as the address of an object holding the fetched bytes' % (res, [(x[0], x[1]) for x in s.stores]))
+    return None
 
 
 def r166(P, rep):
@@ -661,14 +934,19 @@ def run(P, rep, tier):
     rep.explanation = ('Decides that every read-modify-write on an atomic lvalue is lowered to the compare-exchange retry loop (interpretation of to_assign on concrete trees for 3 lvalue shapes x 7 types), '
                        'that the loop has the one shape that is correct, and that the CAS/XCHG primitives are emitted in the one form that is indivisible on x86-64 (term machine over the emitted templates, 12 object types), '
                        'plus the header mapping: the macros of include/stdatomic.h are evaluated under interference schedules, untyped on a 64-bit object (R16.5) and with C types on objects of every integer width and signedness, where the compare-exchange builtin refreshes exactly sizeof(object) bytes of the expected-value object (R16.8). '
-                       'float/double atomic objects are covered by R16.1 (rewrite) and R16.3/R16.4 (bit patterns moved between %xmm0 and the general register the instruction uses). Linearizability under interleavings is a property of schedules and is not decided.')
+                       'float/double atomic objects are covered by R16.1 (rewrite) and R16.3/R16.4 (bit patterns moved between %xmm0 and the general register the instruction uses). '
+                       'R16.8 evaluates every macro twice: with the object designated through a pointer to the _Atomic-qualified type (op= on *(obj) is then the indivisible rewrite of R16.1) and through a pointer to the unqualified type (op= is a plain load/modify/store there; only the builtins are indivisible). '
+                       'R16.9: every atomic_* typedef of C11 7.17.6 carries _Atomic on the paired direct type. R16.10: struct/union objects are either rejected by add_type or the instruction works on the bytes of the operands, not on the addresses aggregates are evaluated to. Linearizability under interleavings is a property of schedules and is not decided.')
     rep.assumptions += ['x86-64: `lock cmpxchg` and `xchg` with a memory operand are indivisible (Intel SDM vol. 3 ch. 8)', 'children satisfy the register convention (induction)']
     r163(cg, rep)
+    r1610(P, cg, rep)
     r161(P, rep)
     r165(P, rep)
+    r165_hygiene(P, rep)
     r165_typed(P, rep)
     r166(P, rep)
     r166_forms(P, rep)
+    r169(P, rep)
     from ..lib_types import r_atomic_builtin_operands
     rep.rule('R16.7', 'add_type converts the value operand of the exchange / compare-and-swap builtins to the type of the atomic object for every arithmetic operand type and gives the exchange the object\'s type: the value the indivisible instruction stores is the converted operand (a floating operand left unconverted is never moved into the register the instruction uses)', floor=200)
     r_atomic_builtin_operands(P, rep, 'R16.7')
